@@ -24,20 +24,33 @@ PROPS = {
                  "(fromStr_eq_some_iff) and rejection of every malformed neighbour shape; model tied to the Go code by bit-exact differential run.",
  },
  "C13": {
-  "modules": ["OsmoVerif.Props.C13"],
-  "min_theorems": 20,
+  "modules": ["OsmoVerif.Props.C13", "OsmoVerif.Props.C13SigFig", "OsmoVerif.Props.C13Log", "OsmoVerif.Props.C13Exp2"],
+  "min_theorems": 76,
   "fingerprints": ["Osmomath.MonotonicSqrt*", "Osmomath.SigFigRound", "Osmomath.Exp2", "Osmomath.exp2ChebyshevRationalApprox",
                    "Osmomath.BigDec_LogBase2", "Osmomath.Pow", "Osmomath.PowApprox", "Osmomath.AbsDifferenceWithSign",
                    "Osmomath.BinarySearch*", "Osmomath.ErrTolerance_*"],
   "engines": [{"name": "math", "kind": "pure", "n": {"quick": 12000, "thorough": 150000}, "shards": {"quick": 4, "thorough": 16}}],
   "rule": "edge values (0, 1 ulp, 1, 2, 2-ulp, 512, 512+ulp, powers of two +-1 ulp, perfect squares +-1, sig-fig ties) and "
           "log-uniform random points per function; non-trivial = positive argument; distinct = distinct op lines",
-  "trusted_base": ["700-bit big.Float reference series (harness/cmd/pure/bigfloat.go) for the analytic error bounds",
-                   "cosmossdk.io/math LegacyDec.Power/ApproxSqrt (modelled)"],
-  "assumptions": ["PARTIAL: the continuum error bounds of Exp2 (rel 1e-18), LogBase2 (abs 1e-32), Pow (powPrecision) and the SigFigRound half-unit bound "
-                  "are NOT theorems; they are decided by the engine's oracle against 700-bit references on the sampled points only",
-                  "proved for all inputs: monotone sqrt least-ness + monotonicity, domain guards, Exp2 integer exactness/split, binary-search postconditions"],
-  "explanation": "theorems over the bit-exact model for the discrete clauses; the model is tied to the Go code by differential run (incl. 300-iteration log and 150000-iteration power series)",
+  "trusted_base": ["700-bit big.Float reference series (harness/cmd/pure/bigfloat.go) for the one analytic bound that remains unproved (Pow/PowApprox precision) and as an "
+                   "independent cross-check of the proved ones on the sampled points",
+                   "cosmossdk.io/math LegacyDec.Power/ApproxSqrt (modelled)",
+                   "Mathlib real analysis (Real.logb, Real.log, Real.rpow, Real.exp with its explicit Taylor remainder) as the meaning of the true values in Props/C13Log and Props/C13Exp2"],
+  "assumptions": ["PARTIAL: NOT a theorem: the Pow/PowApprox power precision (findings F9, F10 show it is false in part); decided by the engine's oracle against 700-bit references "
+                  "on the sampled points only",
+                  "FALSE as literally stated (witness theorems, tolerated by the oracle): TickLog is not within 1e-32*6932 absolutely - the coded constant tickLogOf2 has 33 significant "
+                  "digits, so the result has a relative error 2e-33 (9.2e-28 at x = 2^64); Exp2 is not monotone in the last digits (adjacent inputs around 0.5 decrease by one ulp; "
+                  "quasi-monotone within 2e-21 relative is proved); SigFigRound is not monotone/idempotent for tenToSigFig = 1 or not a multiple of ten (never passed by the code base)",
+                  "proved for all inputs: Exp2 returns exactly on [0,512] and its relative error is <= 1e-21 there (documented 1e-18): rounding error <= 70e-36 against the exact rational function AND the analytic accuracy "
+                  "|P(X)/Q(X) - 2^X| <= 1e-21 on [0,1] by a kernel-evaluated certificate (Taylor enclosure of 2^X at 39-decimal bounds of ln 2 + exact Taylor-shift bound of two degree-29 "
+                  "rational polynomials on 16 subintervals); SigFigRound (half-unit bound sharp for 10^s, +1 ulp truncation for general t, grid form, idempotence s>=1, monotonicity for 10|t, "
+                  "exact success condition); LogBase2 |error| <= 89e-36 (documented 1e-32), monotone, total; Ln/TickLog/CustomBaseLog error = base-2 error scaled by the base change + half an "
+                  "ulp + the error of the coded constant (bounded by 40-digit enclosures of ln 2, ln 1.0001: Ln <= 63e-36 + 2.1e-37*|log2 x| <= 1e-33 on representable inputs, "
+                  "TickLog <= 6.2e-31 + 1.5e-29*|log2 x|), Ln/TickLog monotone; monotone sqrt least-ness + monotonicity, domain guards, Exp2 integer exactness/split, binary-search postconditions"],
+  "explanation": "theorems over the bit-exact model: discrete clauses by integer arithmetic; LogBase2 and derived logs by a real-valued (Mathlib) error analysis of the 300-iteration "
+                 "squaring loop (invariant y/10^36 + 2^-i log2(x_i), per-step perturbation scaled by 2^-(i+1), truncated bit weights bounded by a potential); Exp2 by a rounding analysis against "
+                 "the exact rational function plus a certified polynomial-bound checker over Q (Proofs/MathPoly) evaluated by the kernel; the model is tied to the Go code by differential run "
+                 "(incl. 300-iteration log and 150000-iteration power series)",
  },
  "C14": {
   "modules": ["OsmoVerif.Props.C14", "OsmoVerif.Props.C14Mono", "OsmoVerif.Props.C14RoundTrip"],
